@@ -156,6 +156,19 @@ func genPlanQuery(r *rand.Rand, t *jTable) string {
 		case 3:
 			inner += " GROUP BY d1, d2 ORDER BY d1 LIMIT 100"
 		}
+		if r.Intn(3) == 0 {
+			// a second level: the filter (often an IN-subquery) sits two FROM-subqueries down
+			outer := "SELECT * FROM (" + inner + ")"
+			switch r.Intn(4) {
+			case 0:
+				outer += " GROUP BY d1, d2"
+			case 1:
+				outer += " GROUP BY d1"
+			case 2:
+				outer += " WHERE " + c11Where(r)
+			}
+			inner = outer
+		}
 		from = "(" + inner + ")"
 	}
 	q := "SELECT " + sel + " FROM " + from
